@@ -14,6 +14,8 @@ pub struct PInput {
     pub width: DVec3,
     pub gens: Vec<DVec3>,
     pub mask: Option<Vec<bool>>,
+    /// false: used only as an element of call histories (not explored schedule by schedule)
+    pub explore: bool,
 }
 
 fn dimn(d: usize) -> Dimensionality {
@@ -35,6 +37,7 @@ pub fn pipeline_inputs() -> Vec<PInput> {
             width: v(1., 1., 1.),
             gens: vec![v(0.137, 0.291, 0.618), v(0.803, 0.127, 0.344), v(0.412, 0.733, 0.129), v(0.659, 0.581, 0.867)],
             mask: Some(vec![true, false, true, true]),
+            explore: true,
         },
         PInput {
             name: "2D periodic n=3",
@@ -44,6 +47,7 @@ pub fn pipeline_inputs() -> Vec<PInput> {
             width: v(4., 1., 3.3),
             gens: vec![v(-2.5, 10.25, 1e300), v(-0.5, 10.5, -3.3), v(0.75, 10.875, 7.7)],
             mask: None,
+            explore: true,
         },
         PInput {
             name: "1D n=4",
@@ -53,6 +57,7 @@ pub fn pipeline_inputs() -> Vec<PInput> {
             width: v(1., 1e300, 3.3),
             gens: vec![v(1000.125, 1., 2.), v(1000.5, 3., 4.), v(1000.625, 5., 6.), v(1000.875, 7., 8.)],
             mask: Some(vec![true, true, false, true]),
+            explore: true,
         },
         PInput {
             name: "3D periodic n=2",
@@ -62,6 +67,7 @@ pub fn pipeline_inputs() -> Vec<PInput> {
             width: v(1., 2., 8.),
             gens: vec![v(0.25, 0.5, 1.), v(0.75, 1.5, 5.)],
             mask: None,
+            explore: true,
         },
     ];
     // exact ties: 2x2x2 lattice (equidistant neighbours: order of equal candidates must not depend on the schedule)
@@ -73,7 +79,7 @@ pub fn pipeline_inputs() -> Vec<PInput> {
             }
         }
     }
-    inputs.push(PInput { name: "3D 2x2x2 lattice (ties)", dim: 3, periodic: false, anchor: v(0., 0., 0.), width: v(1., 1., 1.), gens: g, mask: None });
+    inputs.push(PInput { name: "3D 2x2x2 lattice (ties)", dim: 3, periodic: false, anchor: v(0., 0., 0.), width: v(1., 1., 1.), gens: g, mask: None, explore: true });
     // 3x2x2 lattice, non-periodic, n = 12: ties + a size between typical 'small input' thresholds
     let mut g = vec![];
     for i in 0..3 {
@@ -83,7 +89,7 @@ pub fn pipeline_inputs() -> Vec<PInput> {
             }
         }
     }
-    inputs.push(PInput { name: "3D 3x2x2 lattice n=12 (ties)", dim: 3, periodic: false, anchor: v(0., 0., 0.), width: v(1.5, 1., 1.), gens: g, mask: None });
+    inputs.push(PInput { name: "3D 3x2x2 lattice n=12 (ties)", dim: 3, periodic: false, anchor: v(0., 0., 0.), width: v(1.5, 1., 1.), gens: g, mask: None, explore: true });
     // a larger state for the deviation-bounded exploration: 3x3x3 lattice with one generator displaced, masked
     let mut g = vec![];
     for i in 0..3 {
@@ -95,7 +101,7 @@ pub fn pipeline_inputs() -> Vec<PInput> {
     }
     g[13] = v(0.52, 0.47, 0.51);
     let mask: Vec<bool> = (0..27).map(|i| i % 5 != 3).collect();
-    inputs.push(PInput { name: "3D 3x3x3 perturbed lattice n=27 masked", dim: 3, periodic: true, anchor: v(0., 0., 0.), width: v(1., 1., 1.), gens: g, mask: Some(mask) });
+    inputs.push(PInput { name: "3D 3x3x3 perturbed lattice n=27 masked", dim: 3, periodic: true, anchor: v(0., 0., 0.), width: v(1., 1., 1.), gens: g, mask: Some(mask), explore: true });
     // one very large cell (a generator inside a jittered Fibonacci shell of 70: about 70 planes, >= 128 vertices): work inside
     // a single cell that a size threshold could move onto a nested parallel region
     let mut g = vec![v(0.5, 0.5, 0.5)];
@@ -112,7 +118,29 @@ pub fn pipeline_inputs() -> Vec<PInput> {
         let rad = 0.3 + 0.002 * next();
         g.push(v(0.5 + rad * r * phi.cos(), 0.5 + rad * r * phi.sin(), 0.5 + rad * z));
     }
-    inputs.push(PInput { name: "3D shell of 70 around one generator (cell with >= 128 vertices)", dim: 3, periodic: false, anchor: v(0., 0., 0.), width: v(1., 1., 1.), gens: g, mask: None });
+    inputs.push(PInput { name: "3D shell of 70 around one generator (cell with >= 128 vertices)", dim: 3, periodic: false, anchor: v(0., 0., 0.), width: v(1., 1., 1.), gens: g, mask: None, explore: true });
+    // history-only inputs: small configurations chosen to collide on anything a cache could be keyed by - the same
+    // width in different dimensionalities, the same dimensionality with different widths, periodic and not, different
+    // generator counts, an extreme length scale
+    let unit = v(1., 1., 1.);
+    let h = |name: &'static str, dim: usize, periodic: bool, anchor: DVec3, width: DVec3, gens: Vec<DVec3>| PInput { name, dim, periodic, anchor, width, gens, mask: None, explore: false };
+    inputs.push(h("H 1D periodic unit n=2", 1, true, v(0., 0., 0.), unit, vec![v(0.2, 0., 0.), v(0.7, 0., 0.)]));
+    inputs.push(h("H 2D periodic unit n=3", 2, true, v(0., 0., 0.), unit, vec![v(0.2, 0.3, 0.), v(0.7, 0.6, 0.), v(0.4, 0.9, 0.)]));
+    inputs.push(h("H 3D periodic unit n=3", 3, true, v(0., 0., 0.), unit, vec![v(0.2, 0.3, 0.1), v(0.7, 0.6, 0.5), v(0.4, 0.9, 0.8)]));
+    inputs.push(h("H 3D reflective unit n=3", 3, false, v(0., 0., 0.), unit, vec![v(0.2, 0.3, 0.1), v(0.7, 0.6, 0.5), v(0.4, 0.9, 0.8)]));
+    inputs.push(h("H 2D reflective unit n=3", 2, false, v(0., 0., 0.), unit, vec![v(0.2, 0.3, 0.), v(0.7, 0.6, 0.), v(0.4, 0.9, 0.)]));
+    inputs.push(h("H 1D reflective unit n=3", 1, false, v(0., 0., 0.), unit, vec![v(0.2, 0., 0.), v(0.7, 0., 0.), v(0.9, 0., 0.)]));
+    inputs.push(h("H 3D periodic (2,1,1) n=2", 3, true, v(0., 0., 0.), v(2., 1., 1.), vec![v(0.5, 0.3, 0.1), v(1.5, 0.6, 0.5)]));
+    inputs.push(h("H 2D periodic (2,1) n=2", 2, true, v(0., 0., 0.), v(2., 1., 1.), vec![v(0.5, 0.3, 0.), v(1.5, 0.6, 0.)]));
+    inputs.push(h("H 3D periodic unit n=1", 3, true, v(0., 0., 0.), unit, vec![v(0.5, 0.5, 0.5)]));
+    inputs.push(h("H 3D periodic 2^-30 n=3", 3, true, v(0., 0., 0.), unit * (2f64).powi(-30), vec![v(0.2, 0.3, 0.1) * (2f64).powi(-30), v(0.7, 0.6, 0.5) * (2f64).powi(-30), v(0.4, 0.9, 0.8) * (2f64).powi(-30)]));
+    let mut g = vec![];
+    for i in 0..12 {
+        let t = (i + 1) as f64;
+        g.push(v((0.5 + 0.8191725 * t).fract(), (0.5 + 0.6710436 * t).fract(), (0.5 + 0.5497005 * t).fract()));
+    }
+    inputs.push(h("H 3D reflective unit n=12", 3, false, v(0., 0., 0.), unit, g.clone()));
+    inputs.push(h("H 3D periodic unit n=12", 3, true, v(0., 0., 0.), unit, g));
     inputs
 }
 
